@@ -220,8 +220,9 @@ def sampler_payload(draw, depth):
         "ins_relative_note": st.integers(-128, 127),
         "editor_cursor": vs.i32(),
         "editor_selected_size": vs.i32(),
-        "max_version": vs.u32(extra=(6,)),
-        "version": vs.u32(extra=(6,)),
+        # the instrument's format version: mostly one of the few values SunVox has ever written
+        "max_version": st.one_of(st.integers(0, 7), vs.u32(extra=(6,))),
+        "version": st.one_of(st.integers(0, 7), vs.u32(extra=(6,))),
         "unused1": vs.u32(),
         "unused2": vs.edge_int(0, 65535),
         "unused3": vs.edge_int(0, 65535),
@@ -965,3 +966,19 @@ def big_payload_module_specs():
         out.append(dict(base, type="Sampler", payload={"samples": [[0, dict(smp, data_big=n)], [5, dict(smp)]], "envelopes": {}, "fields": {}}))
     out.append(dict(base, type="VorbisPlayer", payload={"data": (bytes(range(251)) * 4300).hex()}))
     return out
+
+
+# a Sampler's instrument record over the grid of the few format-version values SunVox has written and its editor fields
+SAMPLER_RECORD_GRID = {"version": [0, 1, 3, 4, 5, 6, 7], "max_version": [0, 1, 3, 4, 5, 6, 7], "editor_cursor": [0, 3], "editor_selected_size": [0, 5]}
+
+
+def sampler_record_grid_specs():
+    """(fields, module spec) for every combination of SAMPLER_RECORD_GRID; every other one holds a sample, all
+    carry instrument-wide tuning values."""
+    import itertools
+
+    names = sorted(SAMPLER_RECORD_GRID)
+    smp = {"data": "0102030405060708", "format": "int8", "channels": "mono", "rate": 22050, "loop_start": 1, "loop_len": 2, "loop_type": "forward", "loop_sustain": True, "volume": 33, "finetune": -5, "panning": 7, "relative_note": 3, "reserved2": 0, "start_pos": 1, "name": "6162"}
+    for k, combo in enumerate(itertools.product(*(SAMPLER_RECORD_GRID[n_] for n_ in names)), 1):
+        fields = dict(zip(names, combo))
+        yield fields, {"type": "Sampler", "common": {"name": "Sampler"}, "sets": [], "options": [], "cmid": [], "payload": {"samples": [[0, dict(smp)]] if k % 2 else [], "envelopes": {}, "fields": dict(fields, ins_finetune=-7, ins_relative_note=k % 5)}}
